@@ -2674,21 +2674,27 @@ void Validator::ValidatorImpl::checkUniqueResetOrders(const ModelPtr &model)
 
 void Validator::ValidatorImpl::addResetOrderMapItem(const VariablePtr &variable, int order, ResetOrderMap &resetOrderMap)
 {
-    auto currentVariable = variable;
-    bool existingVariableFound = resetOrderMap.count(currentVariable) > 0;
+    // Note: the entries are kept in order of first appearance (rather than
+    //       sorted by address), so that issues are always reported in the
+    //       same order.
+
+    auto findEntry = [&](const VariablePtr &v) {
+        return std::find_if(resetOrderMap.begin(), resetOrderMap.end(),
+                            [&](const std::pair<VariablePtr, std::vector<int>> &entry) { return entry.first == v; });
+    };
+    auto entry = findEntry(variable);
     size_t i = 0;
 
-    while ((i < variable->equivalentVariableCount()) && !existingVariableFound) {
-        currentVariable = variable->equivalentVariable(i);
-        existingVariableFound = resetOrderMap.count(currentVariable) > 0;
+    while ((i < variable->equivalentVariableCount()) && (entry == resetOrderMap.end())) {
+        entry = findEntry(variable->equivalentVariable(i));
         ++i;
     }
 
-    if (existingVariableFound) {
-        resetOrderMap[currentVariable].emplace_back(order);
+    if (entry != resetOrderMap.end()) {
+        entry->second.emplace_back(order);
     } else {
         std::vector<int> orders = {order};
-        resetOrderMap.emplace(variable, orders);
+        resetOrderMap.emplace_back(variable, orders);
     }
 }
 
